@@ -111,3 +111,31 @@ CONTRACTS["parameters:ParameterSet.load_calibration#one_row"] = dict(
         ("C16.a_known_entry_leaves_the_previous_row_alone", "implies(KNOWN, PREV.meta_y_factor == m_prev and PREV.y_factor['pop'] == y_prev)"),
     ],
     defined_props=["C16", "C18"])
+
+
+# ---- ParameterSet.get_par (the collaborator load_calibration relies on; C16 / C18): an ordinary parameter by name, a transfer / interaction
+# by name and source population; a name or source population the set does not have is reported with KeyError (what load_calibration
+# catches), a population given for an ordinary parameter or omitted for a transfer with AssertionError
+def _env_get_par(name, pop):
+    def make(it):
+        from pyvc.interp import PyObjV
+        from pyvc import source
+
+        pm = source.load("parameters")
+        mk = lambda n: PyObjV("Parameter", pm, {"name": n})
+        p, tr, ia = mk("p"), mk("age from children"), mk("w from adults")
+        self = PyObjV("ParameterSet", pm, {"name": "ps", "pars": {"p": p}, "transfers": {"age": {"children": tr}}, "interactions": {"w": {"adults": ia}}})
+        return {"self": self, "name": name, "pop": pop, "P": p, "TR": tr, "IA": ia}
+
+    return make
+
+
+for _tag, _name, _pop, _res, _exc in (
+        ("ordinary_parameter", "p", None, "P", None), ("ordinary_parameter_with_a_population", "p", "adults", None, "AssertionError"),
+        ("transfer", "age", "children", "TR", None), ("transfer_from_an_unknown_population", "age", "adults", None, "KeyError"), ("transfer_without_population", "age", None, None, "AssertionError"),
+        ("interaction", "w", "adults", "IA", None), ("interaction_from_an_unknown_population", "w", "children", None, "KeyError"), ("unknown_name", "q", None, None, "KeyError")):
+    CONTRACTS["parameters:ParameterSet.get_par#%s" % _tag] = dict(
+        schema=schema, make_env=_env_get_par(_name, _pop), call_stubs={"pd.isna": (lambda it, v: v is None)},
+        raises=({_exc: "True"} if _exc else {}), raises_props=["C16", "C18"],
+        ensures=[] if _exc else [("C16.the_entry_of_that_name_and_source_population", "result is %s" % _res)],
+        defined_props=["C16", "C18"])
